@@ -374,8 +374,48 @@ pub fn c11(run: &mut Run) -> Stats {
             .reduce(Stats::default, Stats::merge);
         st3 = st3.merge(s);
     }
+    // ---- 3b. properties of strings in set operations with nested unions of string-bearing operands
+    let snames: Vec<&String> = {
+        let mut v: Vec<&String> = t.strings.keys().collect();
+        v.sort();
+        v
+    };
+    let spairs: Vec<(&String, &String)> = snames.iter().flat_map(|a| snames.iter().map(move |b| (*a, *b))).filter(|(a, b)| a != b).collect();
+    let st3b = spairs
+        .par_iter()
+        .fold(Stats::default, |mut st, (sa, sb)| {
+            let in_a: BTreeSet<&Vec<u32>> = t.strings[*sa].iter().collect();
+            let in_b: BTreeSet<&Vec<u32>> = t.strings[*sb].iter().collect();
+            // members of either set (at most 400 of each) are the probes
+            let probes: Vec<&Vec<u32>> = t.strings[*sa].iter().take(400).chain(t.strings[*sb].iter().take(400)).collect();
+            for (tpl, op) in [("^[\\p{A}&&[\\p{B}\\p{A}]]$", 0), ("^[\\p{A}--[\\p{B}\\p{A}]]$", 1), ("^[[\\p{B}\\p{A}]&&\\p{A}]$", 0), ("^[[\\p{A}\\p{B}]--\\p{B}]$", 2), ("^[\\p{A}&&[\\p{B}\\q{zz|a}\\p{A}]]$", 0)] {
+                let pat_s = tpl.replace('A', "\u{1}").replace('B', sb).replace("\u{1}", sa);
+                let CompileOutcome::Ok(re) = subject::compile(&cps(&pat_s), Flags::parse("v"), false) else { continue };
+                for u in &probes {
+                    let Some(text): Option<String> = u.iter().map(|&c| char::from_u32(c)).collect() else { continue };
+                    let (ia, ib) = (in_a.contains(*u), in_b.contains(*u));
+                    let exp = match op {
+                        0 => ia,
+                        1 => false,
+                        _ => ia && !ib,
+                    };
+                    st.add("evaluations", 1);
+                    st.add("validated", 1);
+                    if exp {
+                        st.add("nontrivial", 1);
+                    }
+                    let got = subject::guarded(50_000_000, || re.find(&text).is_some());
+                    if got != Outcome::Ok(exp) {
+                        let seq: Vec<String> = u.iter().map(|c| format!("U+{:04X}", c)).collect();
+                        st.violation(&known, "C11", &format!("set operation over properties of strings differs: {}", tpl), u.len(), case(&pat_s, "v", false, &format!("membership of the string [{}] differs from the algebra of the two string sets", seq.join(" ")), J::Bool(exp), J::s(&format!("{:?}", got))));
+                    }
+                }
+            }
+            st
+        })
+        .reduce(Stats::default, Stats::merge);
     run.rule = format!(
-        "acceptance: {} candidate expressions (every expression the oracle lists as accepted or rejected: names, values and aliases of all Unicode properties known to Perl UCD 14 and ES, scripts of Unicode 15-17, case/underscore/space variants, wrong property prefixes, plus {} built from string literals found in the subject's own name tables) x {{u,v}} x {{\\p,\\P}}; membership: every accepted expression x {{u,v}} x {{\\p,\\P}} over all 1,112,064 scalar values (one scan of the all-scalars haystack each, with the program's start predicate and again without it); every accepted expression used with both polarities in one pattern (5 templates x 6 member / non-member haystack shapes); pairs of 16 large properties in one class ([\\p{{A}}\\p{{B}}] under u and v, && and -- under v, negated union): membership on every interval edge equals the algebra of the two oracle sets; strings: {} judged strings x 7 properties of strings under v as /^\\p{{..}}$/, and every member string against the unanchored forms /\\p{{..}}/, /[\\p{{..}}]/ and /(?<=^\\p{{..}})$/ (whole-string first match, forwards and backwards); non-trivial = expression admitted by ES / string is a member",
+        "acceptance: {} candidate expressions (every expression the oracle lists as accepted or rejected: names, values and aliases of all Unicode properties known to Perl UCD 14 and ES, scripts of Unicode 15-17, case/underscore/space variants, wrong property prefixes, plus {} built from string literals found in the subject's own name tables) x {{u,v}} x {{\\p,\\P}}; membership: every accepted expression x {{u,v}} x {{\\p,\\P}} over all 1,112,064 scalar values (one scan of the all-scalars haystack each, with the program's start predicate and again without it); every accepted expression used with both polarities in one pattern (5 templates x 6 member / non-member haystack shapes); pairs of 16 large properties in one class ([\\p{{A}}\\p{{B}}] under u and v, && and -- under v, negated union): membership on every interval edge equals the algebra of the two oracle sets; strings: {} judged strings x 7 properties of strings under v as /^\\p{{..}}$/, and every member string against the unanchored forms /\\p{{..}}/, /[\\p{{..}}]/ and /(?<=^\\p{{..}})$/ (whole-string first match, forwards and backwards); every ordered pair of properties of strings in five set-operation templates with nested unions, membership of up to 800 member strings = the algebra of the two string sets; non-trivial = expression admitted by ES / string is a member",
         cands.len(),
         from_source,
         t.universe.len()
@@ -387,7 +427,7 @@ pub fn c11(run: &mut Run) -> Stats {
     ];
     run.extra.push(("accepted_expressions".into(), J::u(t.names.len() as u64)));
     run.extra.push(("distinct_sets".into(), J::u(t.sets.len() as u64)));
-    st1.merge(st2).merge(st2b).merge(st2c).merge(st3)
+    st1.merge(st2).merge(st2b).merge(st2c).merge(st3).merge(st3b)
 }
 
 fn seq_str(u: &[u32]) -> String {
